@@ -228,6 +228,29 @@ func runC20Paths(w *world.World, c caseC20, rec *kit.Recorder) error {
 	if gerr != nil || !res.OK() || qerr != nil || !q.IsPaused {
 		return fmt.Errorf("canonical %s domain %q: genesis %v, pause %v, query %v paused=%v", name, c.Counterparty, gerr, res.Err, qerr, q.IsPaused)
 	}
+	// (3b) the same coupling when the identifier is paused as part of a BATCH, next to one that is
+	// already paused and next to a repetition: whatever the message answers, if it reports success
+	// the identifier is paused
+	{
+		other := "5"
+		if c.Counterparty == other {
+			other = "3"
+		}
+		for _, batch := range [][]string{{other, c.Counterparty}, {other, other, c.Counterparty}} {
+			bctx := w.Branch()
+			first, _ := kit.BuildAdmin(kit.Admin{Kind: "pause_cc", Protocol: name, Ids: []string{other}})
+			if r := w.Tx(bctx, first); !r.OK() {
+				return fmt.Errorf("harness: pausing (%s,%s) failed: %v", name, other, r.Err)
+			}
+			bmsg, _ := kit.BuildAdmin(kit.Admin{Kind: "pause_cc", Protocol: name, Ids: batch})
+			if r := w.Tx(bctx, bmsg); r.OK() {
+				var bq forwardertypes.QueryIsCrossChainPausedResponse
+				if err := w.Query(bctx, fwdQuery+"IsCrossChainPaused", &forwardertypes.QueryIsCrossChainPausedRequest{ProtocolId: name, CounterpartyId: c.Counterparty}, &bq); err != nil || !bq.IsPaused {
+					return fmt.Errorf("PauseCrossChains(%s,%q) succeeded (with %q already paused) but %q is not paused afterwards (query: %v %v)", name, batch, other, c.Counterparty, bq.IsPaused, err)
+				}
+			}
+		}
+	}
 	// (3) coupling: the successful pause covers the transfers it names
 	v, _ := strconv.ParseUint(c.Counterparty, 10, 32)
 	var tr kit.Transfer
